@@ -3,7 +3,7 @@ import json
 import random
 
 from common import lean_obligations, build_harness, hx, run_model
-from gram import Oracle, random_grammar, all_strings, random_sentence, mutate
+from gram import Oracle, CharOracle, Gram, random_grammar, all_strings, random_sentence, mutate
 import lrfamily as lf
 import treeparse as tp
 
@@ -94,7 +94,8 @@ def oracle(c):
         if meta.get("job") != "std":
             continue
         toks = meta["toks"]
-        o = Oracle(g, toks, cap=10 ** 12)
+        chars = meta.get("chars", False)     # lexically ambiguous family: derivations over every tokenization
+        o = CharOracle(g, inp, cap=10 ** 12) if chars else Oracle(g, toks, cap=10 ** 12)
         want = o.ntrees()
         kl = lf.klass(res)
         if want >= 10 ** 12:
@@ -127,7 +128,11 @@ def oracle(c):
             if not tp.valid_elided(t, prods, nterms, d["start"], nullable_syms):
                 okv = False
                 break
-            if [l["kind"] for l in tp.leaves(t)] != [kinds[x] for x in toks]:
+            if chars:
+                if "".join(g.terms[list(g.terms)[l["kind"] - 1]] for l in tp.leaves(t)) != inp:
+                    okv = False
+                    break
+            elif [l["kind"] for l in tp.leaves(t)] != [kinds[x] for x in toks]:
                 okv = False
                 break
             shapes.append(render_shape(elide_max(from_full(t))))
@@ -139,7 +144,7 @@ def oracle(c):
             continue
         if want <= 64:
             exp = {render_shape(elide_max(oracle_tree_to_shape(g, t, kinds)))
-                   for t in o.trees(g.nts[0], 0, len(toks), limit=200)}
+                   for t in o.trees(g.nts[0], 0, len(inp) if chars else len(toks), limit=200)}
             if set(shapes) != exp:
                 bad.append((k, f"forest trees differ from the derivation trees: missing {sorted(exp - set(shapes))[:2]} "
                                f"extra {sorted(set(shapes) - exp)[:2]}"))
@@ -190,6 +195,41 @@ def gen(rng, tier):
             text = "".join(g.terms[t] for t in toks)
             inputs.append(("GLR", "0", text, {"toks": toks, "job": "std"}))
         c = lf.Case(g.render(), ["GLR", "LALR_RN"] + ["-"] * 8, inputs, gram=g, tag="glr")
+        cases.append(c)
+    # lexically ambiguous family: overlapping string terminals ('a', 'aa', 'ab', 'b', ...) with most-specific, longest-match
+    # and grammar-order all switched OFF, so that the forest must hold the derivations over EVERY tokenization (heads of
+    # one shift round sit at different input positions)
+    lits = ["a", "aa", "ab", "b", "ba", "aaa"]
+    n_lex = 40 if tier == "quick" else 400
+    tries = 0
+    made = 0
+    lexlit = [
+        "S: S T | T;\nT: A | B;\nterminals\nA: 'a';\nB: 'aa';\n",
+        "S: T S | T;\nT: A | B | C;\nterminals\nA: 'a';\nB: 'ab';\nC: 'b';\n",
+        "S: A S B | C | EMPTY;\nterminals\nA: 'a';\nB: 'b';\nC: 'ab';\n",
+        "S: X X X | X X;\nX: A | B | C;\nterminals\nA: 'a';\nB: 'aa';\nC: 'aaa';\n",
+        "S: L R;\nL: L A | A;\nR: B R | B | C;\nterminals\nA: 'a';\nB: 'ab';\nC: 'b';\n",
+    ]
+    for text in lexlit:
+        g = lf.parse_bnf(text)
+        inputs = [("GLR", "0", "".join(s), {"toks": [], "chars": True, "job": "std"})
+                  for s in all_strings(["a", "b"], 6 if tier == "quick" else 8)]
+        cases.append(lf.Case(g.render(), ["GLR", "LALR_RN", "-", "-", "0", "0", "0", "-", "-", "-"], inputs, gram=g, tag="glr-lexamb"))
+    while made < n_lex and tries < n_lex * 80:
+        tries += 1
+        g0 = random_grammar(rng, p_empty=0.15, max_nts=3, nterm=3)
+        if not g0.in_glr_scope() or len(g0.terms) < 2:
+            continue
+        pick = rng.sample(lits, len(g0.terms))
+        g = Gram(g0.prods, {t: pick[i] for i, t in enumerate(g0.terms)})
+        if not g.in_glr_scope():
+            continue
+        made += 1
+        inputs = []
+        for s in all_strings(["a", "b"], 5 if tier == "quick" else 6):
+            text = "".join(s)
+            inputs.append(("GLR", "0", text, {"toks": [], "chars": True, "job": "std"}))
+        c = lf.Case(g.render(), ["GLR", "LALR_RN", "-", "-", "0", "0", "0", "-", "-", "-"], inputs, gram=g, tag="glr-lexamb")
         cases.append(c)
     return cases
 
